@@ -159,6 +159,9 @@ def gen_game(rng, quick):
         X, Y = int(rng.integers(1, 4)), int(rng.integers(1, 4))
         if A ** X * B ** Y <= (64 if quick else MAX_PAIRS) and A * B * X * Y >= 2:
             break
+    # one game in five: a predicate that is invariant under exchanging the players, V(a,b|x,y) = V(b,a|y,x), with a question distribution
+    # that is NOT symmetric (the optimum may then sit at a pair (f, g) whose mirror image (g, f) is worse)
+    sym = A == B and X == Y and X >= 2 and rng.integers(2) == 0
     cplx = bool(rng.integers(2))
     pred = np.zeros((d, d, A, B, X, Y), dtype=complex if cplx else float)
     for a, b, x, y in itertools.product(range(A), range(B), range(X), range(Y)):
@@ -173,6 +176,10 @@ def gen_game(rng, quick):
         k = int(np.ceil(np.log2(t)))
         P = P / float(1 << k)  # exact dyadic, operator norm <= 1
         pred[:, :, a, b, x, y] = P if cplx else P.real
+    if sym:
+        for a, b, x, y in itertools.product(range(A), range(B), range(X), range(Y)):
+            if (a, x) < (b, y):
+                pred[:, :, b, a, y, x] = pred[:, :, a, b, x, y]
     cells = X * Y
     if cells == 1:
         prob = np.array([[1.0]])
@@ -181,7 +188,9 @@ def gen_game(rng, quick):
         if cells >= 3 and rng.integers(4) == 0:
             pr[0], pr[1] = pr[0] + pr[1], 0.0
         prob = np.array(pr).reshape(X, Y)
-    return {"kind": "random", "prob": prob, "pred": pred, "cplx": cplx}
+        if sym and np.array_equal(prob, prob.T):
+            prob[0, 1], prob[1, 0] = prob[0, 1] + prob[1, 0], 0.0
+    return {"kind": "exchange-symmetric" if sym else "random", "prob": prob, "pred": pred, "cplx": cplx}
 
 
 def corpus_games():
